@@ -248,6 +248,12 @@ def uspec_term(a, spec, G='G'):
             param_term(a.get('min_cap', 0.0), spec, g), param_term(a.get('max_cap', 0.0), spec, g),
             param_term(a.get('extra_costs', 0.0), spec, g))
         return '(USimple %s %s)' % (rg, cp)
+    if k == 'Contract':
+        cp = '(Build_contract_p %s %s %s %s %s %s)' % (
+            C.s(a['name']), C.s(a['nodes'][0]), price_term(a.get('price'), spec),
+            param_term(a.get('min_cap', 0.0), spec, g), param_term(a.get('max_cap', 0.0), spec, g),
+            param_term(a.get('extra_costs', 0.0), spec, g))
+        return '(UContract %s %s %s %s)' % (rg, cp, takes_term(a.get('max_take'), g), takes_term(a.get('min_take'), g))
     if k == 'Transport':
         tp = '(Build_transport_p %s %s %s %s %s %s %s %s)' % (
             C.s(a['name']), C.s(a['nodes'][0]), C.s(a['nodes'][1]), price_term(a.get('costs_time_series'), spec),
